@@ -270,7 +270,8 @@ func (s *Sim) evmScenario(hs *EvmStats) error {
 				msg := ethtypes.NewMessage(fromA, to, spec.Nonce, amt, spec.Gas, price, new(big.Int), new(big.Int), spec.Data, nil, false)
 				var coinbase common.Address
 				copy(coinbase[:], b.Proposer)
-				bctx := ethvm.BlockContext{CanTransfer: evm.CanTransfer, Transfer: evm.Transfer, GetHash: evm.GetHash, Coinbase: coinbase,
+				bctx := ethvm.BlockContext{CanTransfer: ethcore.CanTransfer, Transfer: ethcore.Transfer, GetHash: evm.GetHash, // go-ethereum's own transfer rules: the reference must not share code with the node
+					Coinbase:    coinbase,
 					BlockNumber: big.NewInt(h), Time: big.NewInt(b.request().Header.Time.Unix()), Difficulty: big.NewInt(1), BaseFee: big.NewInt(0), GasLimit: 25_000_000}
 				vm := ethvm.NewEVM(bctx, ethcore.NewEVMTxContext(msg), ref, evm.RIGOMainnetEVMCtrlerChainConfig, ethvm.Config{NoBaseFee: true})
 				ref.Prepare(common.BytesToHash(bt.Hash), s.txIndex(b))
